@@ -5,6 +5,7 @@
    is tied to the code by the correspondence check: model and implementation agree on the full call log and on
    the full EvictionCache trace of every generated case. *)
 From Connectome Require Import Values Attrs VM Edges Evaluator Sim L2 C01Main C01Inst EdgeFacts Examples.
+From Connectome Require VmGen.
 From Connectome Require EvictGen GraphGen.
 From Connectome Require ColStore ColumnsGen Columns ColumnsFacts EqFacts.
 Local Open Scope list_scope.
@@ -131,3 +132,11 @@ Proof.
   exists a1, (b1 ++ a2), b2. rewrite <- app_assoc. cbn. rewrite <- app_assoc. reflexivity.
 Qed.
 Print Assumptions C03_two_columns_run_a_shared_function_twice.
+
+(* The machine model (Model/VM.v: step, run) mirrors engine/vm.py execute arm by arm and is compared with it on full event traces.
+   The fingerprints (sha256 of the normalised body) are regenerated on every run; an edit of one of these functions re-opens this property
+   even if no sampled case shows a difference. *)
+Theorem C03_mirrored_functions_are_the_pinned_ones :
+  VmGen.shape_execute = "3390af1da9648cc9".
+Proof. repeat split; reflexivity. Qed.
+Print Assumptions C03_mirrored_functions_are_the_pinned_ones.
